@@ -4,7 +4,7 @@ import os
 import re
 import z3
 from .common import *  # noqa
-from mirsym.lib import PeekableV, VecIter
+from mirsym.lib import PeekableV, VecIter, mk_datetime
 
 
 def parsed_fields():
@@ -228,11 +228,12 @@ class Offset(Harness):
             hh = (cs[0] - 48) * 10 + (cs[1] - 48)
             mm = (cs[2] - 48) * 10 + (cs[3] - 48)
         else:
-            hs, hh = digits(ex, I, 'h', 2)
+            nh = [2, 1, 3, 5, 9, 10][ex.choose(6, 'hour digits')]
+            hs, hh = digits(ex, I, 'h', nh)
             ms, mm = digits(ex, I, 'm', 2)
             toks = [st, variant(ex, 'DateToken', 'Number', [SymStr(hs), none(ex)]), variant(ex, 'DateToken', 'Colon'),
                     variant(ex, 'DateToken', 'Number', [SymStr(ms), none(ex)])]
-        return toks, {'sign': sign, 'form': form, 'hh': hh, 'mm': mm}
+        return toks, {'sign': sign, 'form': form, 'hh': hh, 'mm': mm, 'nh': len(hs) if form == 'colon' else 2}
 
     def entry(self, ex, args, ctx):
         r, out, fields = run_parse_date(ex, list(args), 'offset')
@@ -244,7 +245,8 @@ class Offset(Harness):
         r = deref_all(outcome[1])
         sign, hh, mm = ctx['sign'], ctx['hh'], ctx['mm']
         if is_err(r):
-            return [('offset refused only for minutes above 59 in the colon form', z3.And(ctx['form'] == 'colon', mm > 59))]
+            return [('offset refused only for minutes above 59 in the colon form, or for an offset of 24 h or more',
+                     z3.Or(z3.And(ctx['form'] == 'colon', mm > 59), hh * 3600 + mm * 60 >= 86400))]
         w = written(ctx['out'], ctx['fields'])
         obs = [('only the offset field is set (set: %s)' % sorted(w), sorted(w) == ['offset'])]
         if 'offset' in w:
@@ -257,11 +259,17 @@ class Offset(Harness):
         c['inputs']['form'] = ctx['form']
         return c
 
+    def prefer(self, ctx):
+        # offsets that exist: the replay through a date literal can only tell them apart inside +-24 h
+        hh, mm = ctx['hh'], ctx['mm']
+        return [hh <= 12, mm <= 59, mm >= 1, hh >= 1]
+
     def _text(self, inputs):
         s = '+' if int(inputs['sign']) > 0 else '-'
         if inputs['form'] == 'compact':
             return s + ''.join(chr(int(inputs['h%d' % i])) for i in range(4))
-        return s + chr(int(inputs['h0'])) + chr(int(inputs['h1'])) + ':' + chr(int(inputs['m0'])) + chr(int(inputs['m1']))
+        nh = len([x for x in inputs if re.match(r'^h\d+$', x)])
+        return s + ''.join(chr(int(inputs['h%d' % i])) for i in range(nh)) + ':' + chr(int(inputs['m0'])) + chr(int(inputs['m1']))
 
     def native(self, inputs, label):
         t = self._text(inputs)
@@ -272,8 +280,10 @@ class Offset(Harness):
         t = self._text(inputs)
         if q.get('outcome') == 'panic' or q.get('render_panic'):
             return True, 'panic %s' % (q.get('panic') or q.get('render_panic'))
-        digs = re.sub(r'[^0-9]', '', t)
-        hh, mm = int(digs[:2]), int(digs[2:])
+        if ':' in t:
+            hh, mm = int(t[1:].split(':')[0]), int(t.split(':')[1])
+        else:
+            hh, mm = int(t[1:3]), int(t[3:])
         off = (1 if t[0] == '+' else -1) * (hh * 3600 + mm * 60)
         got = obs_number_json(q)
         if abs(off) >= 86400 or mm > 59:
@@ -282,7 +292,127 @@ class Offset(Harness):
         return (got is None or got[0] != want), '`... %s# - ...+00:00#` = %s, expected %s s' % (t, got, want)
 
 
+# --------------------------------------------------------------------------------------------------------------
+# `attempt`: one date pattern against a literal, including what happens to the parsed offset afterwards.
+# chrono's Parsed -> NaiveDate/NaiveTime/FixedOffset conversions are replaced by their documented contracts.
+
+def _stub_parsed_new(ex, nc, args):
+    return Struct('Parsed', [none(ex) for _ in parsed_fields()])
+
+
+def _stub_naive(kind):
+    def f(ex, nc, args):
+        return ex.make_variant('Result', 'Ok', [Opaque(kind)])
+    return f
+
+
+def _stub_to_fixed_offset(ex, nc, args):
+    """Parsed::to_fixed_offset: Err(NOT_ENOUGH) without an offset, Err(OUT_OF_RANGE) unless |offset| < 86400 s"""
+    p = deref_all(args[0])
+    off = deref_all(p.fields[parsed_fields().index('offset')])
+    if off.variant == 0:
+        return ex.make_variant('Result', 'Err', [Opaque('ParseError', 'NotEnough')])
+    x = off.fields[0]
+    if ex.branch(z3.And(zint(x) > -86400, zint(x) < 86400), 'offset within +-24h'):
+        return ex.make_variant('Result', 'Ok', [Struct('FixedOffset', [x])])
+    return ex.make_variant('Result', 'Err', [Opaque('ParseError', 'OutOfRange')])
+
+
+def _stub_from_local(ex, nc, args):
+    off = dup(deref_all(args[0]))
+    return Struct('LocalResult', [mk_datetime(ex.fresh('instant', 'Int'), off)])
+
+
+def _stub_earliest(ex, nc, args):
+    return some(ex, deref_all(args[0]).fields[0])
+
+
+def _stub_with_time(ex, nc, args):
+    d = deref_all(args[0])
+    return Struct('LocalResult', [mk_datetime(ex.fresh('instant', 'Int'), d.fields[1])])
+
+
+class LiteralOffset(Harness):
+    name = 'datetime.attempt.offset_is_honoured'
+    props = ('C14', 'C04')
+    entry = 'parsing::datetime::attempt'
+    loop_bound = 20
+    describe = ('attempt() on the pattern `offset` and a literal +hhmm / +h..h:mm with symbolic digits: the instant is built with exactly the '
+                'offset written, and an offset of 24 h or more is refused instead of being replaced')
+    bounds = ['pattern = [offset] alone; date and time parts replaced by chrono contracts (present / absent)', 'hours of 1..10 digits in the colon form']
+    expect_classes = ['Result::Ok', 'Result::Err']
+    _concrete = None
+    stubs = ((r'^Parsed::new$', _stub_parsed_new, 'chrono Parsed::new -> all fields None'),
+             (r'^Parsed::to_naive_time$', _stub_naive('NaiveTime'), 'chrono Parsed::to_naive_time -> Ok(opaque)'),
+             (r'^Parsed::to_naive_date$', _stub_naive('NaiveDate'), 'chrono Parsed::to_naive_date -> Ok(opaque)'),
+             (r'^Parsed::to_fixed_offset$', _stub_to_fixed_offset, 'chrono Parsed::to_fixed_offset -> its documented contract'),
+             (r'^NaiveDate::and_time$', lambda ex, nc, a: Opaque('NaiveDateTime'), 'chrono NaiveDate::and_time -> opaque'),
+             (r'from_local_datetime$', _stub_from_local, 'TimeZone::from_local_datetime -> a single instant carrying the zone it was asked for'),
+             (r'^LocalResult::(earliest|single|latest)$', _stub_earliest, 'LocalResult::earliest -> Some'),
+             (r'^DateTime::with_time$', _stub_with_time, 'DateTime::with_time -> keeps the zone'),
+             (r'^LocalResult::unwrap$', lambda ex, nc, a: deref_all(a[0]).fields[0], 'LocalResult::unwrap'))
+
+    def build(self, ex, I):
+        sign = [1, -1][ex.choose(2, 'sign')]
+        form = ['compact', 'colon'][ex.choose(2, 'form')]
+        st = variant(ex, 'DateToken', 'Plus' if sign == 1 else 'Dash')
+        if form == 'compact':
+            cs, v = digits(ex, I, 'h', 4)
+            toks = [st, variant(ex, 'DateToken', 'Number', [SymStr(cs), none(ex)])]
+            hh = (cs[0] - 48) * 10 + (cs[1] - 48)
+            mm = (cs[2] - 48) * 10 + (cs[3] - 48)
+        else:
+            nh = [2, 1, 3][ex.choose(3, 'hour digits')]
+            hs, hh = digits(ex, I, 'h', nh)
+            ms, mm = digits(ex, I, 'm', 2)
+            toks = [st, variant(ex, 'DateToken', 'Number', [SymStr(hs), none(ex)]), variant(ex, 'DateToken', 'Colon'),
+                    variant(ex, 'DateToken', 'Number', [SymStr(ms), none(ex)])]
+        now = mk_datetime(I.int('now_ns'), Opaque('Local'))
+        pat = Arr([variant(ex, 'DatePattern', 'Match', ['offset'])])
+        return [now, ref(Arr(toks)), ref(pat)], {'sign': sign, 'form': form, 'hh': hh, 'mm': mm}
+
+    def post(self, ex, ctx, outcome):
+        r = deref_all(outcome[1])
+        off = ctx['sign'] * (ctx['hh'] * 3600 + ctx['mm'] * 60)
+        in_range = z3.And(off > -86400, off < 86400)
+        if is_err(r):
+            return [('a literal with a valid offset is accepted', z3.Or(z3.Not(in_range), z3.And(ctx['form'] == 'colon', ctx['mm'] > 59)))]
+        g = deref_all(payload(r))
+        obs = [('an offset of 24 h or more is refused', in_range)]
+        if not (isinstance(g, Enum) and g.vname == 'Fixed'):
+            return obs + [('a numeric offset yields a fixed-offset instant', False)]
+        zone = deref_all(deref_all(g.fields[0]).fields[1])
+        if not (isinstance(zone, Struct) and zone.name == 'FixedOffset'):
+            return obs + [('the instant carries a fixed offset', False)]
+        obs.append(('the instant is built with the offset that was written', zint(zone.fields[0]) == off))
+        return obs
+
+    case = Offset.case
+    _text = Offset._text
+    prefer = Offset.prefer
+
+    def native(self, inputs, label):
+        t = self._text(inputs)
+        return [{'mode': 'query', 'text': '#2020-01-01 12:00:00 %s# - #2020-01-01 12:00:00 +00:00#' % t}]
+
+    def judge(self, inputs, label, obs):
+        q = obs[0]
+        t = self._text(inputs)
+        if q.get('outcome') == 'panic' or q.get('render_panic'):
+            return True, 'panic %s' % (q.get('panic') or q.get('render_panic'))
+        if ':' in t:
+            hh, mm = int(t[1:].split(':')[0]), int(t.split(':')[1])
+        else:
+            hh, mm = int(t[1:3]), int(t[3:])
+        off = (1 if t[0] == '+' else -1) * (hh * 3600 + mm * 60)
+        got = obs_number_json(q)
+        if abs(off) >= 86400 or (':' in t and mm > 59):
+            return (got is not None), 'a literal with the offset %s is %s' % (t, 'accepted: %s' % q.get('display') if got is not None else 'refused')
+        want = Fraction(-off)
+        return (got is None or got[0] != want), '`... %s# - ...+00:00#` = %s, expected %s s' % (t, got, want)
+
+
 def harnesses(tier):
     if parsed_fields() is None:
         return []
-    return [NumericElements(), Seconds(), Offset()]
+    return [NumericElements(), Seconds(), Offset(), LiteralOffset()]
